@@ -65,7 +65,9 @@ def index_map(case, ctx):
 
 @st.composite
 def value_case(draw, tier):
-    j = draw(st.integers(1, JMAX_VALUES))
+    # mostly radial orders <= 20; one case in four goes on to order 39 (j = 820), where the float evaluation is
+    # still meaningful under the cancellation-aware tolerance (the bound grows like the largest term of the sum)
+    j = draw(st.integers(1, JMAX_VALUES)) if draw(st.integers(0, 3)) else draw(st.integers(JMAX_VALUES + 1, 820))
     k = draw(st.integers(0, 2**31 - 1))
     special = draw(st.sampled_from(["random", "edge", "origin", "axes"]))
     return {"j": j, "seed": k, "points": special, "normalize": draw(st.booleans()),
@@ -96,10 +98,13 @@ def values(case, ctx):
     elif case["points"] == "axes":
         theta = np.round(theta / (np.pi / 2)) * (np.pi / 2)
     # two masks over the same caller-owned coordinate arrays: a partial one first, then the full one
-    mask_a = (rng.uniform(size=shape) < 0.6).astype(float)
-    mask = np.ones(shape)
-    ctx.tag(f"n:{min(n, 20)}", "m=0" if am == 0 else "m!=0", "normalized" if case["normalize"] else "raw",
-            "points:" + case["points"], kind, "partial_mask_first" if mask_a.min() == 0 else None)
+    sup_a = rng.uniform(size=shape) < 0.6
+    # membership is "non-zero": labels, weights, negative and mixed-sign values describe the same mask
+    form = gen.MASK_FORMS[case["seed"] % len(gen.MASK_FORMS)]
+    mask_a = gen.apply_mask_form(sup_a, form, seed=case["seed"])
+    mask = gen.apply_mask_form(np.ones(shape, dtype=bool), form, seed=case["seed"] + 1)
+    ctx.tag(f"n:{n if n <= 20 else '21-24' if n <= 24 else '25-30' if n <= 30 else '31-39'}", "m=0" if am == 0 else "m!=0", "normalized" if case["normalize"] else "raw",
+            "points:" + case["points"], kind, "partial_mask_first" if not sup_a.all() else None, "mask_values:" + form)
     ctx.nontrivial_if(n >= 2)
     rho0, theta0 = rho.copy(), theta.copy()
     with lentil_call("C11.values", f"zernike(j={j})"):
@@ -111,7 +116,7 @@ def values(case, ctx):
     ref, mag = zern.mode(n, am, kind, rho0, theta0, normalize=case["normalize"])
     ref = sign * ref
     tol_a = 64 * np.finfo(float).eps * (np.asarray(mag, dtype=float) * (1 + am * np.abs(theta0)) + 1.0)
-    if got_a.shape != shape or np.any(np.abs(got_a - np.asarray(ref, dtype=float) * mask_a) > tol_a):
+    if got_a.shape != shape or np.any(np.abs(got_a - np.asarray(ref, dtype=float) * sup_a) > tol_a):
         raise Violation("C11.values.masked", f"mode j={j} over a partial mask differs from mask * textbook value")
     tol = 64 * np.finfo(float).eps * (np.asarray(mag, dtype=float) * (1 + am * np.abs(theta)) + 1.0)
     err = np.abs(got - np.asarray(ref, dtype=float))
